@@ -567,6 +567,8 @@ mutual
     | .int x, b, h => by cases b <;> simp_all [PyObj.beq]
     | .str x, b, h => by cases b <;> simp_all [PyObj.beq]
     | .bytes x, b, h => by cases b <;> simp_all [PyObj.beq]
+    | .decimal n c e, b, h => by cases b <;> simp_all [PyObj.beq]
+    | .decimalSpecial x, b, h => by cases b <;> simp_all [PyObj.beq]
     | .tuple xs, b, h => by
       cases b with
       | tuple ys => simp only [PyObj.beq] at h; rw [PyObj.beqList_sound xs ys h]
@@ -865,7 +867,7 @@ theorem or_node (c : Cfg) (a : Ann) (l r : Ty) (hPl : P c l) (hOl : Por c l) (hP
 /-! ### the cases of the main induction -/
 
 theorem P_scalar (c : Cfg) (hu : c.unitHashable = true) (a : Ann) (s : Scalar) : P c (.scalar a s) := by
-  intro cmp v _ hty
+  intro cmp v hinv hty
   cases s <;> simp only [HasTy] at hty
   · subst hty
     exact ⟨.unit, by simp [toPy, scalarToPy], by simp [ofPy, scalarOfPy], fun _ => by simp [PyObj.hashable, hu], fun _ => by simp⟩
@@ -877,7 +879,7 @@ theorem P_scalar (c : Cfg) (hu : c.unitHashable = true) (a : Ann) (s : Scalar) :
     exact ⟨.int n, by simp [toPy, scalarToPy], by simp [ofPy, scalarOfPy], fun _ => by simp [PyObj.hashable], fun _ => by simp⟩
   · obtain ⟨n, rfl, h0, h1⟩ := hty
     refine ⟨.int n, by simp [toPy, scalarToPy], ?_, fun _ => by simp [PyObj.hashable], fun _ => by simp⟩
-    simp only [ofPy, scalarOfPy]
+    simp only [ofPy, scalarOfPy, mutezFromValue]
     rw [if_neg (by omega), if_neg (by omega)]
   · obtain ⟨n, rfl⟩ := hty
     exact ⟨.int n, by simp [toPy, scalarToPy], by simp [ofPy, scalarOfPy], fun _ => by simp [PyObj.hashable], fun _ => by simp⟩
@@ -885,6 +887,40 @@ theorem P_scalar (c : Cfg) (hu : c.unitHashable = true) (a : Ann) (s : Scalar) :
     exact ⟨.str s, by simp [toPy, scalarToPy], by simp [ofPy, scalarOfPy, hs], fun _ => by simp [PyObj.hashable], fun _ => by simp⟩
   · obtain ⟨b, rfl⟩ := hty
     exact ⟨.bytes b, by simp [toPy, scalarToPy], by simp [ofPy, scalarOfPy], fun _ => by simp [PyObj.hashable], fun _ => by simp⟩
+  -- address, key_hash, key, signature, chain_id: the text `from_value` keeps
+  · obtain ⟨s, rfl, hs⟩ := hty
+    exact ⟨.str s, by simp [toPy, scalarToPy], by simp [ofPy, scalarOfPy, hs, Except.map], fun _ => by simp [PyObj.hashable], fun _ => by simp⟩
+  · obtain ⟨s, rfl, hs⟩ := hty
+    exact ⟨.str s, by simp [toPy, scalarToPy], by simp [ofPy, scalarOfPy, hs, Except.map], fun _ => by simp [PyObj.hashable], fun _ => by simp⟩
+  · obtain ⟨s, rfl, hs⟩ := hty
+    exact ⟨.str s, by simp [toPy, scalarToPy], by simp [ofPy, scalarOfPy, hs, Except.map], fun _ => by simp [PyObj.hashable], fun _ => by simp⟩
+  · obtain ⟨s, rfl, hs⟩ := hty
+    exact ⟨.str s, by simp [toPy, scalarToPy], by simp [ofPy, scalarOfPy, hs, Except.map], fun _ => by simp [PyObj.hashable], fun _ => by simp⟩
+  · obtain ⟨s, rfl, hs⟩ := hty
+    exact ⟨.str s, by simp [toPy, scalarToPy], by simp [ofPy, scalarOfPy, hs, Except.map], fun _ => by simp [PyObj.hashable], fun _ => by simp⟩
+  -- bls12_381_fr: `value % modulus` of a value below the modulus; not comparable
+  · obtain ⟨n, rfl, h0, h1⟩ := hty
+    have hc : cmp = false := by cases cmp <;> simp_all [inv, Scalar.assertsNotComparable]
+    subst hc
+    refine ⟨.int n, by simp [toPy, scalarToPy], ?_, (fun h => by cases h), fun _ => by simp⟩
+    simp only [ofPy, scalarOfPy]
+    rw [Int.emod_eq_of_lt h0 h1]
+  · obtain ⟨b, rfl⟩ := hty
+    have hc : cmp = false := by cases cmp <;> simp_all [inv, Scalar.assertsNotComparable]
+    subst hc
+    exact ⟨.bytes b, by simp [toPy, scalarToPy], by simp [ofPy, scalarOfPy], (fun h => by cases h), fun _ => by simp⟩
+  · obtain ⟨b, rfl⟩ := hty
+    have hc : cmp = false := by cases cmp <;> simp_all [inv, Scalar.assertsNotComparable]
+    subst hc
+    exact ⟨.bytes b, by simp [toPy, scalarToPy], by simp [ofPy, scalarOfPy], (fun h => by cases h), fun _ => by simp⟩
+
+theorem P_contract (c : Cfg) (a : Ann) (p : Ty) : P c (.contract a p) := by
+  intro cmp v hinv hty
+  simp only [HasTy] at hty
+  obtain ⟨s, rfl, hs⟩ := hty
+  have hc : cmp = false := by cases cmp <;> simp_all [inv]
+  subst hc
+  exact ⟨.str s, by simp [toPy], by simp [ofPy, hs, Except.map], (fun h => by cases h), fun _ => by simp⟩
 
 theorem P_option (c : Cfg) (a : Ann) (t : Ty) (hP : P c t) : P c (.option a t) := by
   intro cmp v hinv hty
@@ -1247,6 +1283,8 @@ theorem roundtrip_all (c : Cfg) (hu : c.unitHashable = true) : ∀ τ : Ty, P c 
     exact ⟨P_map c a k v ihk.1 ihv.1, fun _ _ h => by simp [leavesInv] at h, fun _ _ h => by simp [orLeavesInv] at h⟩
   | bigMap a k v ihk ihv =>
     exact ⟨P_bigMap c a k v ihk.1 ihv.1, fun _ _ h => by simp [leavesInv] at h, fun _ _ h => by simp [orLeavesInv] at h⟩
+  | contract a p _ =>
+    exact ⟨P_contract c a p, fun _ _ h => by simp [leavesInv] at h, fun _ _ h => by simp [orLeavesInv] at h⟩
 
 /-- the keys of the record a named pair converts to are the field names of its layout, in order -/
 theorem pair_record_keys (c : Cfg) (hu : c.unitHashable = true) (a : Ann) (l r : Ty) (v : Val)
